@@ -2,7 +2,7 @@ SPECIFICATION Spec
 CONSTANTS
   Alphabet = {"a","sp","tab","sq","dq","us","hash","semi","dollar","lbr","nl","dot","qm","data_","loop_","save_","global_","stop_"}
   MaxLen = 2
-  Alphabet3 = {"a","sp","tab","sq","dq","us","hash","semi","nl","data_"}
+  Alphabet3 = {"a","sp","sq","dq","us","hash","semi","nl","data_"}
   MaxLen3 = 3
   FileShapes = {"solo","sand"}
   Shapes = {"s1","s2a","s2b","l1a","l1b","l2a","l2b","l2c","l2d","mlc","l2m","s2m"}
